@@ -394,3 +394,32 @@ def simp(t, assume, memo=None):
             r = TRUE
     memo[t] = r
     return r
+
+
+def match_term(pat, term, binds, vars_, memo=None):
+    """first-order matching of term DAGs: symbols of `pat` listed in vars_ bind to sub-terms of `term`
+    (consistently); everything else must be structurally equal.  Returns True/False, fills binds."""
+    if memo is None:
+        memo = {}
+    if isinstance(pat, tuple) and pat and pat[0] == 'sym' and pat in vars_:
+        if pat in binds:
+            return binds[pat] == term
+        binds[pat] = term
+        return True
+    if not isinstance(pat, tuple) or not isinstance(term, tuple):
+        return pat == term
+    key = (id(pat), id(term))
+    if key in memo:
+        return memo[key]
+    ok = len(pat) == len(term) and pat[0] == term[0]
+    if ok:
+        for a, b in zip(pat[1:], term[1:]):
+            if isinstance(a, tuple):
+                if not match_term(a, b, binds, vars_, memo):
+                    ok = False
+                    break
+            elif a != b:
+                ok = False
+                break
+    memo[key] = ok
+    return ok
